@@ -31,6 +31,7 @@ MC_TRACER = [("MCTracer.cfg", None, False), ("MCTracerStuck.cfg", None, False), 
              ("MCTracerBugNoBound.cfg", "P_X08_Bounded", False),
              ("MCTracerBugAlwaysDrop.cfg", "P_X08_NoDropUnlessLossy", False)]
 MC_REMOTE = [("MCRemote.cfg", None, False), ("MCRemoteNoFail.cfg", None, False), ("MCRemoteDown.cfg", None, False),
+             ("MCRemoteEarlyExitEquiv.cfg", None, True), ("MCRemoteEarlyExitEquivNoFail.cfg", None, True),
              ("MCRemoteBugCloseIgnored.cfg", "P_X08_CloseTerminates", False),
              ("MCRemoteBugNoBound.cfg", "P_X08_Bounded", False),
              ("MCRemoteBugRequeue.cfg", "P_X08_Subsequence", False),
